@@ -654,9 +654,9 @@ impl TransportVisitor for VSmall {
                     }
                 }
                 // read
-                for clock in [0u16, 0x12fe] {
+                // (Readings at the edges too: 0 and all ones are readings like any other.)
+                for (clock, reading) in [(0u16, 0x0123_4567_89ab_cdefu64), (0x12fe, 0x0123_4567_89ab_cdefu64 ^ 0x12fe), (7, 0), (8, u64::MAX)] {
                     let st = statuses[deviate(statuses.len(), "clock device status")];
-                    let reading = 0x0123_4567_89ab_cdefu64 ^ clock as u64;
                     let mut resp = vec![st, 0, 0, 0, 0, 0, 0, 0];
                     resp.extend(reading.to_le_bytes());
                     *plan.borrow_mut() = Some((resp, 16));
